@@ -104,12 +104,15 @@ Definition run_wrap_case (c : list Z) : list Z :=
       f_to_bits (s_main row sz) :: f_to_bits (s_cross row sz) :: flat_map (enc_placed row) (concat lines)
   end.
 
-(* line lengths (number of items per line), for the report *)
-Definition run_wrap_lines (c : list Z) : list Z :=
+(* the same, prefixed by the line structure the model computed: [number of lines; items per line ...] ++ R
+   (the prefix is used for the coverage report only; the comparison is on R) *)
+Definition run_wrap_case_ext (c : list Z) : list Z :=
   let s := decode_container c in
   let row := cs_row s in
   let n := Z.to_nat (nth 22%nat c 0) in
   match layout_root s (decode_children row n (skipn 23%nat c)) with
   | None => [-1]
-  | Some (_, lines) => map (fun l => Z.of_nat (length l)) lines
+  | Some (sz, lines) =>
+      Z.of_nat (length lines) :: map (fun l => Z.of_nat (length l)) lines ++
+      f_to_bits (s_main row sz) :: f_to_bits (s_cross row sz) :: flat_map (enc_placed row) (concat lines)
   end.
